@@ -214,6 +214,7 @@ impl<'tcx, 'a> Cx<'tcx, 'a> {
         let tcx = self.tcx;
         let mut bodies = Vec::new();
         let mut generated = Vec::new();
+        let mut productions = Vec::new();
         let mut skipped = 0i128;
         let mut unsafe_non_src = 0i128;
         for ldid in tcx.hir_body_owners() {
@@ -238,6 +239,18 @@ impl<'tcx, 'a> Cx<'tcx, 'a> {
                 // the semantic actions of the generated parser (one function per grammar alternative) are dumped
                 // apart from the source bodies: they are the type-checked form of the grammar file's action code
                 if matches!(kind, DefKind::Fn) && tcx.item_name(ldid.to_def_id()).as_str().starts_with("__action") {
+                    if generated.is_empty() {
+                        // the generated parser documents, next to every reduction, which production runs which action:
+                        // `// Lhs = Sym, Sym => ActionFn(N);` — taken from the very text rustc compiled
+                        let sf = tcx.sess.source_map().lookup_source_file(sp.lo());
+                        if let Some(src) = sf.src.as_ref() {
+                            for line in src.lines() {
+                                if line.contains("ActionFn(") && line.trim_start().starts_with("//") {
+                                    productions.push(J::s(line.trim().to_string()));
+                                }
+                            }
+                        }
+                    }
                     generated.push(self.body_json(ldid));
                 }
                 continue;
@@ -248,6 +261,7 @@ impl<'tcx, 'a> Cx<'tcx, 'a> {
         J::obj()
             .with("bodies", J::Arr(bodies))
             .with("generated_actions", J::Arr(generated))
+            .with("generated_productions", J::Arr(productions))
             .with("skipped_non_src", J::Int(skipped))
             .with("unsafe_non_src", J::Int(unsafe_non_src))
             .with("types", J::Arr(types))
